@@ -252,6 +252,8 @@ func (g *gen) genStatement(typ types.Type, this, that string) error {
 		return nil
 	case *types.Basic:
 		switch ttyp.Kind() {
+		case types.UnsafePointer, types.UntypedNil, types.Invalid:
+			return fmt.Errorf("unsupported compare type: %s", g.TypeString(typ))
 		case types.String:
 			if types.Identical(typ, ttyp) {
 				p.P("return %s.Compare(%s, %s)", g.stringsPkg(), this, that)
